@@ -14,12 +14,12 @@ git checkout -- . ; rm -f tests/seed_demo.rs
 cp "$SEED/demo.rs" tests/seed_demo.rs
 F=""; [ -n "$FEAT" ] && F="--features $FEAT"
 echo "--- demo WITHOUT the change"
-timeout 600 cargo test --offline $F --test seed_demo 2>&1 | grep -E "^test result|panicked|error(\[|:)" | head -5
+timeout 600 cargo test --offline $F --test seed_demo 2>&1 | grep -E "^test result|^error(\[|:)" | head -5
 git apply "$SEED/patch.diff" || { echo "PATCH DOES NOT APPLY"; exit 2; }
 echo "--- existing suite WITH the change"
 mv tests/seed_demo.rs /tmp/seed_demo.rs.hold
 timeout 900 cargo test --offline $F 2>&1 | grep -E "^test result|FAILED|error(\[|:)|Terminated" | head -8
 mv /tmp/seed_demo.rs.hold tests/seed_demo.rs
 echo "--- demo WITH the change"
-timeout 600 cargo test --offline $F --test seed_demo 2>&1 | grep -E "^test result|panicked|error(\[|:)|Terminated" | head -5
+timeout 600 cargo test --offline $F --test seed_demo 2>&1 | grep -E "^test result|^error(\[|:)|Terminated" | head -5
 git checkout -- . ; rm -f tests/seed_demo.rs
